@@ -122,14 +122,27 @@ func VerifC09_ThroughProcessor() {
 	var seenTimeout time.Duration
 	var seenHeaders map[string]string
 	var seenOp string
+	pf := NewFProtocolFactory(thrift.NewTBinaryProtocolFactoryDefault())
+	// the handler may call another service on the way: with the inbound context itself or with a clone
+	leaf := &verifPingHandler{outcome: verifOutcome(verifOutValue, 0)}
+	onwardClient := NewFStandardClient(NewFServiceProvider(&verifSlowLoop{proc: verifPingProcessor(leaf), pf: pf}, pf))
+	onward := verifChoice(3)
 	h.onCall = func(c FContext) {
 		seenTimeout = c.Timeout()
 		seenHeaders = c.RequestHeaders()
 		seenOp = verifOpID(c)
 		c.AddResponseHeader(rk, rv)
+		if onward > 0 {
+			oc := c
+			if onward == 2 {
+				oc = Clone(c)
+			}
+			res := &verifPingResult{}
+			verifAssert(onwardClient.Call(oc, "ping", &verifMsg{a: "x", b: "y", c: "z"}, res) == nil && res.success != nil, "the onward call succeeds")
+			verifReach("onward-call")
+		}
 	}
 	proc := verifPingProcessor(h)
-	pf := NewFProtocolFactory(thrift.NewTBinaryProtocolFactoryDefault())
 	in := verifRequestFrame(fctx, verifReqKnown, "a")
 	out := NewTMemoryOutputBuffer(0)
 	err := proc.Process(pf.GetProtocol(&thrift.TMemoryBuffer{Buffer: bytes.NewBuffer(in)}), pf.GetProtocol(out))
@@ -145,5 +158,16 @@ func VerifC09_ThroughProcessor() {
 	if rk != cidHeader {
 		verifAssert(rep.headers[rk] == rv, "a response header set by the handler is in the reply")
 	}
+
+	// the same context is used for a second call after its timeout was changed (nothing else touched)
+	want2 := timeouts[verifChoice(len(timeouts))]
+	fctx.SetTimeout(want2)
+	onward = 0
+	out2 := NewTMemoryOutputBuffer(0)
+	err = proc.Process(pf.GetProtocol(&thrift.TMemoryBuffer{Buffer: bytes.NewBuffer(verifRequestFrame(fctx, verifReqKnown, "b"))}), pf.GetProtocol(out2))
+	verifAssert(err == nil && h.calls == 2, "the handler ran again")
+	verifAssert(seenTimeout == want2, "the second call's handler observes the timeout set before the second call")
+	got, ok = seenHeaders[k]
+	verifAssert(ok && got == v && len(seenHeaders) == 4, "and the same user header, nothing else")
 	verifReach("end")
 }
